@@ -129,7 +129,8 @@ def generate(rnd, tier):
         if not fault_free and rnd.random() < 0.12:
             # control-flow faults: the call may fail, the caller's objects must survive intact
             if sampler.get("callable") and rnd.random() < 0.5:
-                op["faults"] = [{"kind": "sampler_raise", "call": rnd.randint(0, cfg["nb_samples"])}]
+                op["faults"] = [{"kind": "sampler_raise", "call": rnd.randint(0, cfg["nb_samples"]),
+                                 "exc": rnd.choice(["CallbackFault", "StopIteration", "ValueError", "KeyError", "RuntimeError"])}]
             else:
                 op["faults"] = [{"kind": "interrupt", "at_line": int(10 ** rnd.uniform(0.3, 4.3)), "exc": rnd.choice(["SimInterrupt", "MemoryError"])}]
         elif not fault_free and sampler.get("callable") in (None, "recording") and rnd.random() < 0.6:
@@ -242,19 +243,30 @@ class RecSampler:
         self.calls = 0
         self.reenter = False
         self.reentered = False
+        self.nested = False
+        self.raise_exc = None
 
     def __call__(self, source, **kw):
         L = lib()
         self.calls += 1
         if self.raise_at is not None and self.calls - 1 == self.raise_at:
             self.raised = True
-            raise CallbackFault(f"planned failure of sampler call {self.raise_at}")
+            raise {"StopIteration": StopIteration, "ValueError": ValueError, "KeyError": KeyError, "RuntimeError": RuntimeError}.get(
+                self.raise_exc, CallbackFault)(f"planned failure of sampler call {self.raise_at}")
         if self.reenter and self.calls % 3 == 1:
             # re-entrant user code: queries and a nested resample on the object the library is in the middle of using
             self.reentered = True
             source.cm(np.array([0.0]))
             source.swap()
             source.bootstrap_sample(L.BootstrapConfig(sampling_method="replacement"))
+            if not self.nested:
+                # a nested band computation with other support points while the outer one is in flight
+                self.nested = True
+                try:
+                    L.roc_with_ci(source, nb_points=5, alpha=0.3, config=L.BootstrapConfig(nb_samples=2, bootstrap_method="quantile",
+                                                                                          sampling_method=lambda s_: s_))
+                finally:
+                    self.nested = False
         if self.kind == "identity":
             out = source
         elif self.kind == "recording":
@@ -316,6 +328,7 @@ def execute(scn, ctx):
             ra = next((f["call"] for f in (op.get("faults") or []) if f["kind"] == "sampler_raise"), None)
             sampler = RecSampler(s_kind, inner, sspec.get("which", 0), raise_at=ra)
             sampler.reenter = bool(sspec.get("reenter"))
+            sampler.raise_exc = next((f.get("exc") for f in (op.get("faults") or []) if f["kind"] == "sampler_raise"), None)
             config = M.build_config(dict(cfg, sampling_method={"callable": s_kind}), sampler=sampler)
         else:
             config = M.build_config(dict(sspec, **cfg))
@@ -367,7 +380,16 @@ def execute(scn, ctx):
         if M.fingerprint(src) != fp_before or M.fingerprint(list(callers.values())) != cfp or M.fingerprint(arrs) != arr_fp:
             bad("inputs_unchanged", f"{fn_name} modified the Scores object or a caller-supplied array")
         outcome = "ok"
-        if not res["ok"] and control_fault:
+        swallowed = False
+        if res["ok"] and sampler is not None and sampler.raised and sampler.calls - 1 <= int(cfg["nb_samples"]) - 1:
+            # the sampler failed on one of the nb_samples draws, yet a curve came back: the failure was swallowed and the
+            # bands cannot be those of the configured sampler (fail-or-correct, and "correct" is impossible here)
+            bad("sampler_failure_swallowed", f"{fn_name}: the sampler raised {sampler.raise_exc or 'CallbackFault'} on call {sampler.raise_at} of "
+                                             f"{cfg['nb_samples']} but a result was returned")
+            swallowed = True
+        if swallowed:
+            outcome = "returned-after-swallowed-failure"  # whatever came back is not worth checking (typically uninitialised memory)
+        elif not res["ok"] and control_fault:
             outcome = "failed-after-fault"  # fail-or-correct: raising is fine, the inputs were checked above
         elif not res["ok"]:
             outcome = "raise:" + type(res["value"]).__name__
@@ -454,7 +476,7 @@ def execute(scn, ctx):
                     except Exception as e:  # noqa: BLE001 - reference could not be evaluated: harness problem, surface it
                         raise RuntimeError(f"C16 reference model failed: {type(e).__name__}: {e}") from e
         # the caller reuses its argument buffers after the call: the curve it was handed must not change
-        if res["ok"] and isinstance(res["value"], L.ROCCurve) and arrs:
+        if res["ok"] and isinstance(res["value"], L.ROCCurve) and arrs and not swallowed:
             before = M.canon(res["value"])
             for a_ in arrs:
                 if a_.flags.writeable and a_.size:
@@ -465,7 +487,7 @@ def execute(scn, ctx):
                 bad("result_independent_of_caller_arrays", f"the curve returned by {fn_name} changed when the caller wrote into the "
                                                            f"fnr/fpr/thresholds arrays it had passed (the curve aliases a caller array)")
         trace.append([step, fn_name, tags, sorted(kw), sorted(set(fired)), outcome,
-                      M.digest(M.canon(res["value"]))[:16] if res["ok"] else None, res["draws"]])
+                      M.digest(M.canon(res["value"]))[:16] if res["ok"] and not control_fault else None, res["draws"]])
         inner = sspec.get("inner", sspec)
         sig.append(f"{fn_name}|{s_kind}|{inner.get('sampling_method', '')}|{inner.get('stratified_sampling', '')}|{inner.get('smoothing', '')}|"
                    f"{cfg['bootstrap_method']}|{','.join(k_ for k_ in ('fnr', 'fpr', 'thresholds', 'nb_points', 'x_axis') if k_ in args)}|"
